@@ -74,11 +74,11 @@ SIMPLE_TEXT = st.sampled_from(["Work", "My calendar", "privé", "a b c", "x"])
 
 
 @st.composite
-def prop_set(draw, kind_hint=None, values=None):
+def prop_set(draw, kind_hint=None, values=None, bare_colours=False):
     vals = values or SIMPLE_TEXT
     name = draw(st.sampled_from([P_DISPLAYNAME, P_DISPLAYNAME, P_COMMENT, P_CALCOLOR, P_CALORDER, P_ABDESC, P_ABCOLOR, P_CALDESC, P_REFRESH]))
     if name in (P_CALCOLOR, P_ABCOLOR):
-        v = draw(st.sampled_from(["#FF0000", "#00ff00", "#0000FFAA", "#123456"]))
+        v = draw(st.sampled_from(["#FF0000", "#00ff00", "#0000FFAA", "#123456"] + (["FF0000", "00ff00aa"] if bare_colours else [])))
     elif name == P_CALORDER:
         v = str(draw(st.integers(0, 99)))
     else:
@@ -103,7 +103,7 @@ def wrap_locked(draw, steps, rate):
 
 
 @st.composite
-def program(draw, weights=None, min_steps=8, max_steps=30, prefixes=PREFIXES, seed_bare=True, fancy_names=True, cond_rate=4, prop_values=None, restart_rate=None, focus=False, sparse_rate=0, locked_rate=0, retype=False, untyped_rate=0):
+def program(draw, weights=None, min_steps=8, max_steps=30, prefixes=PREFIXES, seed_bare=True, fancy_names=True, cond_rate=4, prop_values=None, restart_rate=None, focus=False, sparse_rate=0, locked_rate=0, retype=False, untyped_rate=0, bare_colours=False, bulk_plain=False):
     w = dict(DEFAULT_WEIGHTS)
     if weights:
         w.update(weights)
@@ -125,6 +125,12 @@ def program(draw, weights=None, min_steps=8, max_steps=30, prefixes=PREFIXES, se
         {"op": "MKCOL", "fe": draw(FE), "coll": "c1", "kind": draw(st.sampled_from(["mkcalendar", "ext-calendar"]))},
         {"op": "MKCOL", "fe": draw(FE), "coll": "a1", "kind": "ext-addressbook"},
     ]
+    if bulk_plain and draw(st.integers(0, 3)) == 0:
+        # a collection made with a plain MKCOL (no type recorded) that holds several calendar objects
+        bslot = draw(st.sampled_from(["c2", "x1"]))
+        steps.append({"op": "MKCOL", "fe": draw(FE), "coll": bslot, "kind": "plain"})
+        for i in range(draw(st.integers(4, 7))):
+            steps.append({"op": "PUT", "fe": draw(FE), "afe": "wsgi", "coll": bslot, "name": f"bulk{i}.ics", "ctype": "text/calendar", "body": enc_body(draw(gen.calendar_object(uid=f"bulk-{i}"))["raw"]), "cond": []})
     n = draw(st.integers(min_steps, max_steps))
     opst = weighted(w)
     CAL = ["c1", "c1", "c1", "c1", "b1", "h1"] if focus else CAL_SLOTS
@@ -204,7 +210,7 @@ def program(draw, weights=None, min_steps=8, max_steps=30, prefixes=PREFIXES, se
                 props = [draw(prop_set(values=prop_values)) for _ in range(draw(st.integers(1, 2)))]
             steps.append({"op": "MKCOL", "fe": fe, "afe": afe, "coll": draw(st.sampled_from(["c2", "c2", "n1", "x1", "c1", "a1"])), "kind": kind, "props": props, "slash": draw(st.booleans())})
         elif op == "PROPPATCH":
-            sets = [draw(prop_set(values=prop_values)) for _ in range(draw(st.integers(0, 2)))]
+            sets = [draw(prop_set(values=prop_values, bare_colours=bare_colours)) for _ in range(draw(st.integers(0, 2)))]
             removes = [draw(prop_set())[0]] if (not sets or draw(st.integers(0, 3)) == 0) else []
             steps.append({"op": "PROPPATCH", "fe": fe, "afe": afe, "coll": draw(st.sampled_from(["c1", "c1", "a1", "c2", "b1", "x1", "h1"])), "set": sets, "remove": removes})
         elif op == "GET":
